@@ -15,7 +15,8 @@
 (***************************************************************************)
 EXTENDS FailoverRule, TLC, Json
 
-CONSTANTS NS, RA, RT, DT, IgnoreExc, Export, MaxDepth
+CONSTANTS NS, RA, RT, DT, IgnoreExc, Export, MaxDepth,
+          MultiKey      \* also explore two-key calls whose keys prefer different servers (set_many / get_many)
 
 H == [n |-> NS, ra |-> RA, rt |-> RT, dt |-> DT, ignore_exc |-> IgnoreExc]
 Servers == 1..NS
@@ -57,64 +58,85 @@ SetHealth(s, v) == /\ health[s] # v
                    /\ hist' = Append(hist, <<"health", s, v>>)
                    /\ UNCHANGED <<failed, dead, rot, ldc, mon, bad, xid>>
 
-(*************************** one key-addressed call ************************)
+(*************************** key-addressed calls ***************************)
 (* _retry_dead: only when some server is dead and the last check is older than DT *)
 Revivable == IF (\E s \in Servers : dead[s] # -1) /\ ldc > DT THEN { s \in Servers : dead[s] # -1 /\ dead[s] > DT } ELSE {}
 CheckRuns == (\E s \in Servers : dead[s] # -1) /\ ldc > DT
 SetSeq(S) == LET RECURSIVE f(_) f(T) == IF T = {} THEN <<>> ELSE LET x == CHOOSE y \in T : \A z \in T : y <= z IN <<x>> \o f(T \ {x}) IN f(S)
 
-Call(k) ==
+(* _safely_run_func / _safely_run_set_many for the batch of owner o (k = a key of the batch), on the  *)
+(* bookkeeping st = [failed, dead, rot, xid]; returns the events, the new bookkeeping and whether the  *)
+(* owner's error is to be raised                                                                       *)
+RunOwner(st, o, k) ==
+  LET f == st.failed[o]
+      hv == health[o]
+      contact(okk, isos) == [e |-> "contact", s |-> o, k |-> k, ok |-> okk, os |-> isos, x |-> IF okk THEN 0 ELSE st.xid]
+  IN IF f.att # -1 /\ f.att < RA /\ ~(f.age > RT)
+       THEN [evs |-> <<>>, st |-> st, raises |-> FALSE, x |-> 0]              \* inside the retry window: default value, no contact
+       ELSE LET evict == f.att # -1 /\ ~(f.att < RA)                        \* attempts exhausted: remove_server, then contact once more
+                rot2 == IF evict THEN st.rot \ {o} ELSE st.rot
+                dead2 == IF evict THEN [st.dead EXCEPT ![o] = 0] ELSE st.dead
+                f2 == IF evict THEN None ELSE f
+                pre == IF evict THEN <<[e |-> "rm", s |-> o]>> ELSE <<>>
+            IN IF hv = "up"
+                 THEN [evs |-> pre \o <<contact(TRUE, FALSE)>>, raises |-> FALSE, x |-> 0,
+                       st |-> [st EXCEPT !.failed = [st.failed EXCEPT ![o] = None], !.rot = rot2, !.dead = dead2]]
+                 ELSE IF hv = "mc"
+                 THEN [evs |-> pre \o <<contact(FALSE, FALSE)>>, raises |-> TRUE, x |-> st.xid,
+                       st |-> [st EXCEPT !.failed = [st.failed EXCEPT ![o] = f2], !.rot = rot2, !.dead = dead2, !.xid = st.xid + 1]]
+                 ELSE LET fresh == f2.att = -1
+                          evict0 == fresh /\ RA <= 0 /\ o \in rot2              \* retry_attempts = 0: evicted at once
+                          f3 == IF fresh THEN (IF RA > 0 THEN [att |-> 0, age |-> 0] ELSE None)
+                                         ELSE [att |-> f2.att + 1, age |-> 0]
+                      IN [evs |-> pre \o <<contact(FALSE, TRUE)>> \o (IF evict0 THEN <<[e |-> "rm", s |-> o]>> ELSE <<>>),
+                          raises |-> TRUE, x |-> st.xid,
+                          st |-> [failed |-> [st.failed EXCEPT ![o] = f3],
+                                  rot |-> IF evict0 THEN rot2 \ {o} ELSE rot2,
+                                  dead |-> IF evict0 THEN [dead2 EXCEPT ![o] = 0] ELSE dead2,
+                                  xid |-> st.xid + 1]]
+
+(* the batches of a call, one per owner, in order of first appearance *)
+RECURSIVE Owners(_, _, _)
+Owners(ks, rot1, seen) ==
+  IF ks = <<>> THEN <<>>
+  ELSE LET o == Owner(H, Head(ks), rot1) IN
+       IF o = 0 \/ o \in seen THEN Owners(Tail(ks), rot1, seen)
+       ELSE << <<o, Head(ks)>> >> \o Owners(Tail(ks), rot1, seen \cup {o})
+
+(* run the batches one after the other; without ignore_exc the first error aborts the call *)
+RECURSIVE RunAll(_, _, _)
+RunAll(st, batches, acc) ==
+  IF batches = <<>> THEN [evs |-> acc, st |-> st, raises |-> FALSE, x |-> 0]
+  ELSE LET r == RunOwner(st, batches[1][1], batches[1][2]) IN
+       IF r.raises /\ ~IgnoreExc THEN [evs |-> acc \o r.evs, st |-> r.st, raises |-> TRUE, x |-> r.x]
+       ELSE RunAll(r.st, Tail(batches), acc \o r.evs)
+
+CallKeys(ks) ==
   LET rev == Revivable
       rot1 == rot \cup rev
       dead1 == [s \in Servers |-> IF s \in rev THEN -1 ELSE dead[s]]
       ldc1 == IF CheckRuns THEN 0 ELSE ldc
       adds == [i \in DOMAIN SetSeq(rev) |-> [e |-> "add", s |-> SetSeq(rev)[i]]]
-      o == Owner(H, k, rot1)
-      begin == <<[e |-> "call", keys |-> <<k>>]>> \o adds
-      contact(okk, isos) == [e |-> "contact", s |-> o, k |-> k, ok |-> okk, os |-> isos, x |-> IF okk THEN 0 ELSE xid]
-      outcome(raises) == IF raises /\ ~IgnoreExc THEN [e |-> "raise", x |-> xid] ELSE [e |-> "ret"]
-      hv == health[o]
-      f == failed[o]
-  IN /\ hist' = Append(hist, <<"call", k>>)
+      begin == <<[e |-> "call", keys |-> ks]>> \o adds
+      batches == Owners(ks, rot1, {})
+      allout == rot1 = {}
+      r == RunAll([failed |-> failed, dead |-> dead1, rot |-> rot1, xid |-> xid], batches, <<>>)
+      final == IF allout THEN (IF IgnoreExc THEN [e |-> "ret"] ELSE [e |-> "raise", x |-> "all"])
+               ELSE IF r.raises THEN [e |-> "raise", x |-> r.x] ELSE [e |-> "ret"]
+  IN /\ hist' = Append(hist, <<"call">> \o ks)
      /\ UNCHANGED health
-     /\ IF o = 0
-          THEN (* no servers left *)
-               /\ Feed(begin \o <<IF IgnoreExc THEN [e |-> "ret"] ELSE [e |-> "raise", x |-> "all"]>>)
-               /\ rot' = rot1 /\ dead' = dead1 /\ ldc' = ldc1 /\ UNCHANGED <<failed, xid>>
-          ELSE IF f.att # -1 /\ f.att < RA /\ ~(f.age > RT)
-          THEN (* inside the retry window: default value, no contact *)
-               /\ Feed(begin \o <<[e |-> "ret"]>>)
-               /\ rot' = rot1 /\ dead' = dead1 /\ ldc' = ldc1 /\ UNCHANGED <<failed, xid>>
-          ELSE LET evict == f.att # -1 /\ ~(f.att < RA)          \* attempts exhausted: remove_server, then contact once more
-                   rot2 == IF evict THEN rot1 \ {o} ELSE rot1
-                   dead2 == IF evict THEN [dead1 EXCEPT ![o] = 0] ELSE dead1
-                   f2 == IF evict THEN None ELSE f
-                   pre == begin \o (IF evict THEN <<[e |-> "rm", s |-> o]>> ELSE <<>>)
-               IN IF hv = "up"
-                    THEN /\ Feed(pre \o <<contact(TRUE, FALSE), [e |-> "ret"]>>)
-                         /\ failed' = [failed EXCEPT ![o] = None]          \* a successful retry pops the entry
-                         /\ rot' = rot2 /\ dead' = dead2 /\ ldc' = ldc1 /\ xid' = xid
-                    ELSE IF hv = "mc"
-                    THEN (* not an OSError: no bookkeeping *)
-                         /\ Feed(pre \o <<contact(FALSE, FALSE), outcome(TRUE)>>)
-                         /\ failed' = [failed EXCEPT ![o] = f2]
-                         /\ rot' = rot2 /\ dead' = dead2 /\ ldc' = ldc1 /\ xid' = xid + 1
-                    ELSE (* OSError: _mark_failed_server *)
-                         LET fresh == f2.att = -1
-                             evict0 == fresh /\ RA <= 0 /\ o \in rot2           \* retry_attempts = 0: evicted at once
-                             f3 == IF fresh THEN (IF RA > 0 THEN [att |-> 0, age |-> 0] ELSE None)
-                                            ELSE [att |-> f2.att + 1, age |-> 0]
-                         IN /\ Feed(pre \o <<contact(FALSE, TRUE)>> \o (IF evict0 THEN <<[e |-> "rm", s |-> o]>> ELSE <<>>)
-                                    \o <<outcome(TRUE)>>)
-                            /\ failed' = [failed EXCEPT ![o] = f3]
-                            /\ rot' = IF evict0 THEN rot2 \ {o} ELSE rot2
-                            /\ dead' = IF evict0 THEN [dead2 EXCEPT ![o] = 0] ELSE dead2
-                            /\ ldc' = ldc1 /\ xid' = xid + 1
+     /\ Feed(begin \o r.evs \o <<final>>)
+     /\ failed' = r.st.failed /\ dead' = r.st.dead /\ rot' = r.st.rot /\ xid' = r.st.xid /\ ldc' = ldc1
+
+Call(k) == CallKeys(<<k>>)
+(* set_many / get_many over keys that prefer different servers *)
+CallMany == \E a, b \in Keys : a # b /\ CallKeys(<<a, b>>)
 
 Next == /\ depth < MaxDepth /\ depth' = depth + 1
         /\ \/ Tick
            \/ \E s \in Servers, v \in {"up", "os", "mc"} : SetHealth(s, v)
            \/ \E k \in Keys : Call(k)
+           \/ (MultiKey /\ CallMany)
         /\ IF Export /\ depth' = MaxDepth THEN PrintT(ToJson([tag |-> "EXP", hist |-> hist'])) ELSE TRUE
 Spec == Init /\ [][Next]_vars
 
